@@ -527,7 +527,10 @@ class Escape(object):
         if not targets:
             # method-name catalogue for untyped receivers
             if isinstance(call.func, ast.Attribute) and call.func.attr in self.method_catalog:
-                for k in self.method_catalog[call.func.attr]:
+                ks = self.method_catalog[call.func.attr]
+                if isinstance(ks, tuple):
+                    ks = ks[0] if ks[1](call) else []
+                for k in ks:
                     text = norm(call)
                     it0 = Item(k, 'catalog', [self._frame(func, call, text)], func.qname, text)
                     out.setdefault(it0.ident(), it0)
